@@ -84,7 +84,20 @@ Theorem C06_artmap_partial_fit_app :
     artmap_partial_fit KA KB s1 X2 Y2 m eps = Some s2 ->
     artmap_partial_fit KA KB s (X1 ++ X2) (Y1 ++ Y2) m eps = Some s2.
 Proof. exact @artmap_partial_fit_app. Qed.
+Theorem C06_deep_chain_fit_eq_partial_fit_fresh :
+  forall (N : Num) (Ks : list (Kernel N)) (rs : list (list N)) Xs y n m eps,
+    Forall (fun X => length X = n) Xs ->
+    chain_fit Ks (map sam_init rs) Xs y 1 m eps = chain_partial_fit Ks (map sam_init rs) Xs y n m eps.
+Proof. exact @chain_fit_eq_partial_fit_fresh. Qed.
+Theorem C06_deep_chain_two_batches_eq_fit :
+  forall (N : Num) (Ks : list (Kernel N)) rs (ls1 ls2 : list (sam (N:=N))) Xs1 Xs2 y1 y2 n1 n2 m eps,
+    Forall (fun X => length X = n1) Xs1 -> Forall (fun X => length X = n2) Xs2 ->
+    chain_partial_fit Ks (map sam_init rs) Xs1 y1 n1 m eps = Some ls1 ->
+    chain_partial_fit Ks ls1 Xs2 y2 n2 m eps = Some ls2 ->
+    chain_fit Ks (map sam_init rs) (zipapp Xs1 Xs2) (y1 ++ y2) 1 m eps = Some ls2.
+Proof. exact @chain_two_batches_eq_fit. Qed.
 Print Assumptions C06_artmap_partial_fit_app.
+Print Assumptions C06_deep_chain_two_batches_eq_fit.
 Print Assumptions C06_deep_chain_partial_fit_app.
 Print Assumptions C06_simpleartmap_batches_eq_one_call.
 Print Assumptions C06_simpleartmap_fit_eq_any_batching.
